@@ -399,6 +399,10 @@ def removed_feature_problems(rec):
     for area in entry[1]:
         if id(area) in live or area.type not in getters:
             continue
+        # clearing areas "leaves no stale parent links": not on what was removed either
+        parent = getattr(area, "parent", None)
+        if parent is not None:
+            probs.append((f"removed-feature-keeps-parent:{area.type}", f"{area.location} removed, parent still {parent.type} {parent.location}"))
         number_of, feature_of = getters[area.type]
         try:
             number = number_of(area)
